@@ -258,12 +258,15 @@ def _one(case, v, sc, world, pos, extra, plan, env, rootargs, allvict):
     # ---- faulty run
     sc.fresh_world(world)
     snap0 = core.snapshot(sc.root)
+    pert = core.legal_perturbation(case["hashseed"] // 3)
+    if pert:
+        v.planned("legal-perturbation")
     inv = {"argv": _argv(case, order, extra, rootargs), "cwd": case["cwd"], "hashseed": case["hashseed"],
-           "plan": plan, "env": env}
+           "plan": plan + pert, "env": env}
     res = core.run_inv(sc, inv)
     fired = True
     if plan:
-        fired = any(e.fault for e in res.events)
+        fired = any(e.fault and "errno=4 " not in e.raw + " " for e in res.events)
     if kind == "panic":
         fired = b"rustfmt_verif: injected panic" in res.stderr
     v.planned(kind)
